@@ -543,6 +543,19 @@ func (d *discharger) discharge(s panicSite) (bool, string) {
 		if d.protected[s.fn] {
 			return true, "runs only under qp.BuildMap/BuildList's recover"
 		}
+		// a panic on a nil *argument* is a programmer error of the caller, not something block content can trigger
+		if s.kind == "panic" && s.ins != nil && core.GuardedBy(s.ins.Block(), func(cond ssa.Value) (bool, bool) {
+			x, trueMeansNil, ok := core.NilCmp(cond)
+			if !ok {
+				return false, false
+			}
+			if _, isParam := x.(*ssa.Parameter); !isParam {
+				return false, false
+			}
+			return trueMeansNil, true
+		}) {
+			return true, "panics only when the caller passes a nil argument (programmer error, not reachable from block content)"
+		}
 		return false, "function " + core.FuncName(s.fn) + " is not confined to qp.BuildMap/BuildList's recover scope"
 	case "must":
 		return d.dischargeMust(s)
